@@ -15,6 +15,8 @@ Not decided: convergence/accuracy of the latitude fixed-point iteration, behavio
 Added after the seeding rounds (DESIGN.md 6.6-6.8):
  GEODETIC.forward / GEODETIC.angles / FIXPOINT / ITER-TEST  geodetic2ecef is the textbook forward model; at the converged state of its iteration ecef2geodetic
             returns that latitude, longitude and height; the loop continues while |old - new| > delta.
+Added after refactoring round 3 (DESIGN.md 6.9):
+ ORIGIN-DIV  the local-level conversions never divide by a coordinate-derived quantity without a non-zero test (the local origin is a valid input).
 """
 import ast
 import numpy as np
@@ -388,6 +390,31 @@ def pure_rule(chk, prog):
         chk.count("PURE.cache")
 
 
+ORIGIN_SAFE = ["enu2aer", "aer2enu", "enu2dca", "dca2enu", "ned2enu", "enu2ned", "_ltp_transformation", "ecef2enu", "enu2ecef", "enu2uvw", "ecef2enuv"]
+COORDS = {"east", "north", "up", "x", "y", "z", "down", "cross", "above", "slant_range", "u", "v", "w"}
+
+
+def origin_rule(chk, prog):
+    """ORIGIN-DIV: the local-level conversions are rotations and polar changes of variable; the zero offset (the local origin itself) is a valid input that
+    must map to zero / come back unchanged.  None of them may divide by a quantity computed from the point's coordinates unless the division is
+    dominated by a test that the divisor is non-zero (must-fact NZ on the divisor's value number)."""
+    from sa.facts import Facts
+    for name in ORIGIN_SAFE:
+        f = prog.module(FR).funcs.get(name)
+        if f is None:
+            chk.error("ORIGIN-DIV: %s vanished from %s" % (name, FR))
+            continue
+        chk.touch(f)
+        fa = Facts(f, prog).analyse()
+        coords = {"P:" + p for p in f.params if p in COORDS}
+        bad = [d for d in fa.divisions if not d["guarded"] and any(t in d["vn"] for t in coords)]
+        for d in bad:
+            why = ("`%s` divides by a quantity computed from the point's coordinates with no non-zero test on it: at the local origin (zero offset) the divisor is 0 and "
+                   "the conversion returns NaN instead of the origin" % ast.unparse(d["node"])[:80])
+            chk.finding("ORIGIN-DIV", FR, f.qname, "unguarded division by a coordinate-derived quantity: %s" % ast.unparse(d["node"])[:60], why, line=d["node"].lineno)
+        chk.record("ORIGIN-DIV", f.ref, "no unguarded division by a coordinate-derived quantity (%d divisions seen)" % len(fa.divisions), verdict="VIOLATION" if bad else "HOLDS")
+
+
 def canaries(chk, prog):
     from sa.report import Check
 
@@ -407,7 +434,16 @@ def canaries(chk, prog):
                 n.body.insert(1, ast.parse("slant_extra = scale").body[0])
                 return True
         return False
-    for name, tr, fn in (("sin for cos in llf2ecef only", sin_for_cos, run_identities), ("use of a conditionally defined local", undefined, rd_rule)):
+    def arcsin_elev(tree):
+        for n in ast.walk(tree):
+            if isinstance(n, ast.FunctionDef) and n.name == "enu2aer":
+                for s in ast.walk(n):
+                    if isinstance(s, ast.Assign) and isinstance(s.value, ast.Call) and ast.unparse(s.value.func).endswith("arctan2") and "up" in ast.unparse(s.value.args[0]):
+                        s.value = ast.parse("np.arcsin(up / np.linalg.norm([east, north, up]))").body[0].value
+                        return True
+        return False
+    for name, tr, fn in (("sin for cos in llf2ecef only", sin_for_cos, run_identities), ("use of a conditionally defined local", undefined, rd_rule),
+                         ("elevation as arcsin(up / slant range) in enu2aer", arcsin_elev, origin_rule)):
         try:
             p2 = prog.mutated(FR, tr)
             sub = Check("C17", chk.tier, p2, quiet=True)
@@ -425,6 +461,8 @@ def run(chk, prog, tier):
     iteration_shape(chk, prog)
     rd_rule(chk, prog)
     pure_rule(chk, prog)
+    origin_rule(chk, prog)
+    chk.require_count("ORIGIN-DIV", len(ORIGIN_SAFE))
     chk.require_count("ENU.roundtrip", 2)
     chk.require_count("ROT.orthogonal", 2)
     canaries(chk, prog)
